@@ -184,6 +184,21 @@ def _gen_boolexpr(rng, tier, variant):
         yield {'tree': t, 'vals': {k: rng.randint(0, 1) for k in 'ABCD'}, 'cur': CUR_OF_VARIANT.get(variant)}
     for v in (0, 1):
         yield {'tree': {'k': 'cond', 'c': ['A'], 's': []}, 'vals': {'A': v, 'B': 0, 'C': 0, 'D': 0}, 'cur': CUR_OF_VARIANT.get(variant)}
+    # conditions that differ ONLY in a selector, an operator or the kind of right operand, on packets whose raw and
+    # calibrated values give different truth values: every condition of a tree is evaluated on its own terms
+    for _ in range(400 if tier == 'quick' else 6000):
+        t = _rand_tree(rng, rng.randint(0, 3), rng.choice(['and', 'or']), rich=True)
+        yield {'tree': t, 'vals': {k: rng.randint(0, 1) for k in 'ABCD'}, 'raws': {k: rng.randint(0, 1) for k in 'ABCD'},
+               'cur': CUR_OF_VARIANT.get(variant)}
+    for kind in ('and', 'or'):
+        for a, ra in ((0, 1), (1, 0), (1, 1), (0, 0)):
+            for sel in ((True, False), (False, True)):
+                t = {'k': kind, 'c': [['A', '==', '1', None, sel[0], False], ['A', '==', '1', None, sel[1], False]], 's': []}
+                yield {'tree': t, 'vals': {'A': a, 'B': 1, 'C': 0, 'D': 1}, 'raws': {'A': ra, 'B': 0, 'C': 0, 'D': 1},
+                       'cur': CUR_OF_VARIANT.get(variant)}
+                t2 = {'k': kind, 'c': [['A', '==', None, 'B', sel[0], sel[1]], ['A', '==', None, 'B', sel[1], sel[0]]], 's': []}
+                yield {'tree': t2, 'vals': {'A': a, 'B': 1, 'C': 0, 'D': 1}, 'raws': {'A': ra, 'B': 0, 'C': 0, 'D': 1},
+                       'cur': CUR_OF_VARIANT.get(variant)}
 
 
 def _mk_tree(t):
